@@ -118,8 +118,8 @@ func c09Check(ctx *vfCtx, c c09Case) {
 	ch := &jseedChooser{c.Seed}
 	// repeated evaluation
 	repeats := 1
-	if final.Type() == "m.room.power_levels" {
-		repeats = 8
+	if final.Type() == "m.room.power_levels" || strings.Contains(string(final.Content()), "third_party_invite") {
+		repeats = 8 // rules that range over maps (levels; signatures of a third-party invite)
 	}
 	for i := 0; i < repeats; i++ {
 		if v, ok := eval("repeat", neededOnly); ok && v != base {
@@ -297,6 +297,16 @@ func c09GenEvent(t *rapid.T, version string, r c07Room, b c07Built, label string
 	default:
 		e.Type, e.StateKey, e.Content = "m.room.join_rules", raSK(""), jobj("join_rule", jstr("public"))
 	}
+	if e.Type == "m.room.member" && rapid.IntRange(0, 3).Draw(t, label+"tpiBlock") == 0 {
+		// a third_party_invite block on a member event of ANY membership (a join that keeps the block of
+		// the invitation it accepts, a leave, an invite), with signatures of several algorithms
+		target := sender
+		if e.StateKey != nil {
+			target = *e.StateKey
+		}
+		e.Content = e.Content.with("third_party_invite", jobj("display_name", jstr("x"),
+			"signed", c07Signed(target, "tok", "idkey1", rapid.Bool().Draw(t, label+"tpiOtherAlgs"))))
+	}
 	if rapid.IntRange(0, 5).Draw(t, label+"firstJoinShape") == 0 {
 		e.Prev = []string{b.CreateID}
 	} else {
@@ -332,6 +342,12 @@ func c09Gen(t *rapid.T) c09Case {
 	base := c07GenRoom(t, version)
 	if rapid.IntRange(0, 2).Draw(t, "forceRestricted") == 0 && vtraits[version].Restricted {
 		base.JoinRule = rapid.SampledFrom([]string{"restricted", "knock_restricted"}).Draw(t, "restrictedRule")
+	}
+	if rapid.IntRange(0, 2).Draw(t, "roomTPI") == 0 {
+		tc := jobj("display_name", jstr("x"), "key_validity_url", jstr("https://id.example/v"), "public_key", jstr(c07PubB64("idkey1")),
+			"public_keys", jarr(jobj("public_key", jstr(c07PubB64("idkey1")), "key_validity_url", jstr("https://id.example/v"))))
+		base.TPI = &tc
+		base.TPISender = rapid.SampledFrom(c07Users).Draw(t, "roomTPISender")
 	}
 	variants := []c07Room{base}
 	nv := rapid.IntRange(0, 2).Draw(t, "nvariants")
@@ -589,7 +605,77 @@ func c09CheckPL(ctx *vfCtx, c c09PLCase) {
 	}
 }
 
+// c09EnumTPI / c09CheckRepeat: third-party invites whose signed block carries signatures under several
+// key IDs and servers (only one of which can verify): the rule ranges over maps, the verdict must not.
+func c09EnumTPI(size, shard, nshards int, emit func(c07Case)) {
+	idx := 0
+	for _, version := range vfVersions {
+		for _, tMem := range []string{"-", "leave"} {
+			for _, keys := range []string{"public_key", "public_keys", "both", "both-single-valid"} {
+				for _, sig := range []string{"valid+other-algorithms", "valid", "other-key"} {
+					if idx%nshards == shard {
+						emit(c07TPICase(version, tMem, "same", keys, sig, "", "join"))
+					}
+					idx++
+				}
+			}
+		}
+	}
+}
+
+func c09CheckRepeat(ctx *vfCtx, c c07Case) {
+	var state []PDU
+	for _, raw := range c.Auth {
+		t, err := evTree(raw)
+		if err != nil {
+			ctx.Unjudged("generator: malformed event")
+			return
+		}
+		p, err := raParsePDU(c.Version, t)
+		if err != nil {
+			ctx.Unjudged("generator: " + err.Error())
+			return
+		}
+		state = append(state, p)
+	}
+	t, err := evTree(c.Event)
+	if err != nil {
+		ctx.Unjudged("generator: malformed event")
+		return
+	}
+	final, err := raParsePDU(c.Version, t)
+	if err != nil {
+		ctx.Unjudged("generator: " + err.Error())
+		return
+	}
+	ctx.NonTrivial()
+	first := ""
+	for i := 0; i < 24; i++ {
+		var verr error
+		if vfCatch(ctx, "C09/repeat", func() {
+			var prov *AuthEvents
+			prov, verr = NewAuthEvents(state)
+			if verr == nil {
+				verr = Allowed(final, prov, vfUserIDForSender)
+			}
+		}) {
+			return
+		}
+		v := c09Verdict(verr)
+		if i == 0 {
+			first = v
+			ctx.Class("verdict/" + v)
+		} else if v != first {
+			ctx.Fail("C09/not-repeatable/third-party-invite", "evaluation %d of the same third-party invite against the same state is %s, the first was %s; event=%s", i+1, v, first, c.Event)
+			return
+		}
+	}
+}
+
 func init() {
+	vfEnum("C09/third-party-invite-verdict-repeatable",
+		"non-trivial = every case: a third-party invite (valid, or signed with another key) whose signed block has one or several signatures, evaluated 24 times against the same state. distinct = distinct Case JSON",
+		1, 1, 4, c09EnumTPI, c09CheckRepeat)
 	vfRapid("C09/power-levels-verdict-repeatable",
 		"non-trivial = the power-levels event changes at least two entries across its users / events / notifications maps (so that the order in which the rules visit them could matter). distinct = distinct Case JSON",
 		1500, 100000, 8, c09GenPL, c09CheckPL)
